@@ -1,7 +1,7 @@
 import json,glob,collections,base64,sys
 pid=sys.argv[1]
 c=collections.Counter(); ex={}
-for f in glob.glob('/verif/replays/%s-*.json'%pid):
+for f in glob.glob((sys.argv[3] if len(sys.argv)>3 else '/verif/replays')+'/%s-*.json'%pid):
     d=json.load(open(f))
     c[d['sig']]+=1
     ex.setdefault(d['sig'],[]).append((d['case'],d['msg'][:400],f))
